@@ -17,7 +17,8 @@ MANIFEST = dict(
     technique='GF(2)-affine abstract interpretation of the CRC loops (bit-vector of affine forms), table generation from the polynomial, matrix equality with the bitwise definition, induction on length',
     text='Proof-level: every obligation (tables, linearity, per-byte transition as a GF(2) matrix, state range, initial value, output '
          'conversion, loop shape) is closed by an exhaustive or algebraic argument, so crc16/crc32c equal CRC-16/XMODEM and CRC-32C on all '
-         'byte strings. Any construct outside the affine sub-language is an analysis error, never a guess.',
+         'byte strings. Any construct outside the affine sub-language is an analysis error, never a guess.'
+         " The names crc16/crc32c as callers see them (decorators applied) must return the analysed function's result in every call history (symbolic inputs, both functions interleaved).",
     note='trusted: CPython ast, the checker\'s GF(2) bit-vector evaluator, the transcription of the two bitwise CRC definitions',
     design_ref='DESIGN.md section 4 C18')
 ONE = '1'
